@@ -461,9 +461,48 @@ class DownloadRetry(Spec):
         return [("canary", z3.BoolVal(len(out.post["surveys"]) == 1))]
 
 
+def unsigned_offsets_probe(rep):
+    """directed run-time contract (bounded): 1-of-3 SDMF and MDMF files, the most significant byte of the first / second / last
+    entry of ONE share's offset table damaged, on each of the three servers; two intact shares remain, so the read must succeed.
+    Failures of exactly this shape are known finding D32 (DESIGN 9.4); anything else is a violation."""
+    import json
+    import os
+    import subprocess
+    import sys
+    from pyvc.runner import load_known_findings
+    name = "UnsignedOffsets:a-share-with-a-damaged-offset-table-does-not-stop-a-read-that-k-intact-shares-can-serve"
+    r = subprocess.run([sys.executable, "-m", "contracts.grid_mutable_offsets"], capture_output=True, text=True, timeout=600, cwd="/verif", env=dict(os.environ))
+    line = [ln for ln in r.stdout.splitlines() if ln.startswith("{")]
+    rep.obligations += 1
+    rep.bounded_obligations += 1
+    if not line:
+        rep.undecided.append({"spec": "UnsignedOffsets", "why": "probe produced no report: " + (r.stderr or "")[-300:]})
+        return
+    res = json.loads(line[-1])
+    rep.paths += res["cases"]
+    rep.sym_paths += res["cases"]
+    rep.bounds.append("unsigned offset table: %d directed cases (SDMF/MDMF 1-of-3, 3 offset-table bytes x 3 servers), real grid" % res["cases"])
+    bad = res["failures"]
+    if not bad:
+        rep.discharged += 1
+        rep.discharged_names.add(name)
+        return
+    expected_shape = all(set(b) == {"format", "offset_table_byte", "server", "outcome"} and b["outcome"] in ("NotEnoughSharesError", "UnrecoverableFileError") for b in bad)
+    known = [f for f in load_known_findings() if f.get("id") == "D32" and f.get("status") == "known"]
+    if expected_shape and known:
+        if not any(k_["id"] == "D32" for k_ in rep.known):
+            rep.known.append(known[0])
+        rep.obligations -= 1
+        rep.bounded_obligations -= 1
+        return
+    rep.violations.append({"property": "C10", "contract": "UnsignedOffsets", "obligation": name, "status": "runtime", "inputs": bad[0],
+                           "native_outcome": "%d of %d directed cases fail; first: %r" % (len(bad), res["cases"], bad[0]), "confirmed_on_real_code": True})
+
+
 def extra_checks(rep, tier):
     from contracts import grid_mutable
     grid_mutable.grid_check(rep, tier, "C10")
+    unsigned_offsets_probe(rep)
 
 
 def contracts(tier):
